@@ -717,7 +717,11 @@ func (self *Value) updateByteLen(originLen int, address []int, isPacked bool, pa
 				// the address of a map value is the tag of its pair: [pairTag][pairLen][keyTag][key][valueTag][valueLen]...
 				p := binary.BinaryProtocol{Buf: self.raw(), Read: addressPtr}
 				p.ConsumeTag()
-				p.ReadLength()
+				// the pair's length is stale at this point (it is what is being updated): step over the varint
+				// without ReadLength's check against the bytes left
+				if _, n := protowire.ConsumeVarint(p.Buf[p.Read:]); n > 0 {
+					p.Read += n
+				}
 				_, keyWireType, _, _ := p.ConsumeTag()
 				p.Skip(keyWireType, false)
 				pos = p.Read
